@@ -11,7 +11,7 @@
 From Coq Require Import ZArith List Bool Lia Arith Permutation.
 From Bluge Require Import Base.Res Search.Numeric Search.Postings Search.Searchers Search.Semantics
   Search.SearchersProofsBase Search.SearchersProofsConj Search.SearchersProofsDisj Search.SearchersProofsHeap
-  Search.SearchersProofsLeaf Search.SearchersProofsSnap Search.SearchersProofsLeafWeak Search.SearchersProofsWeak
+  Search.SearchersProofsLeaf Search.SearchersProofsSnap Search.SearchersProofsLeafWeak Search.SearchersProofsAll Search.SearchersProofsWeak
   Search.SearchersProofsExact.
 From Bluge Require Search.SearchersProofsBoolAdv.
 Module B := SearchersProofsBoolAdv.
@@ -61,53 +61,69 @@ Section Tree.
   (* ================= the leaves ================= *)
 
   Definition LInv (s : searcher) (S : Z -> bool) (lo : Z) : Prop :=
-    exists t wl (it : pit), s = STerm t wl it /\ PInv offs N it S lo /\ PStatic offs N it S.
+    (exists t wl (it : pit), s = STerm t wl it /\ PInv offs N it S lo /\ PStatic offs N it S) \/
+    (exists it, s = SAll it /\ AInv offs N it S lo).
   Definition LFin (s : searcher) (S : Z -> bool) (lo : Z) : Prop :=
     (exists t wl (it : pit), s = STerm t wl it /\ PFin offs N it S lo /\ PStatic offs N it S) \/
+    (exists it, s = SAll it /\ AFin offs N it S lo) \/
     (s = SNone /\ forall x, S x = false).
   Definition LNew (s : searcher) (S : Z -> bool) : Prop :=
     LInv s S 0 \/ (s = SNone /\ forall x, S x = false).
   Definition LW (s : searcher) (S : Z -> bool) (p : option Z) : Prop :=
-    (exists t wl (it : pit), s = STerm t wl it /\ PW offs N it S p) \/ (s = SNone /\ p = None).
+    (exists t wl (it : pit), s = STerm t wl it /\ PW offs N it S p) \/
+    (exists it, s = SAll it /\ AW offs N it S p) \/
+    (s = SNone /\ p = None).
 
   Definition leafP : preds := mkP LInv LFin LNew LW.
+
+  Definition amatch (n : Z) : dmatch := {| dm_num := n; dm_locs := [] |}.
 
   Lemma leaf_next_inv : forall f s S lo, LInv s S lo ->
     exists r s', snext lf (Datatypes.S f) s = Ok (r, s') /\ exact_post LInv LFin S lo r s'.
   Proof.
-    intros f s S lo [t [wl [it [-> [HI HS]]]]].
-    destruct (pit_next_exact offs N it S lo HI) as [r [it' [E Hpost]]].
-    assert (HW : PW offs N it S (Some (lo - 1))) by (eapply PInv_PW; eauto; lia).
-    destruct (pw_next offs N Hoffs_ok it S (lo - 1) HW) as [r2 [it2 [E2 Hres]]].
-    rewrite E in E2. inversion E2; subst r2 it2.
-    cbn [snext]. rewrite E. cbn [rbind fst snd]. eexists _, _. split; [reflexivity|].
-    destruct r as [p|]; simpl in *.
-    - destruct Hpost as [A B0]. split; [exact A|]. exists t, wl, it'. split; [reflexivity|]. split; [exact B0|].
-      eapply PW_static. apply Hres.
-    - destruct Hpost as [A B0]. split; [exact A|]. left. exists t, wl, it'. split; [reflexivity|]. split; [exact B0|].
-      eapply PW_static. exact Hres.
+    intros f s S lo [[t [wl [it [-> [HI HS]]]]]|[it [-> HI]]].
+    - destruct (pit_next_exact offs N it S lo HI) as [r [it' [E Hpost]]].
+      assert (HW : PW offs N it S (Some (lo - 1))) by (eapply PInv_PW; eauto; lia).
+      destruct (pw_next offs N Hoffs_ok it S (lo - 1) HW) as [r2 [it2 [E2 Hres]]].
+      rewrite E in E2. inversion E2; subst r2 it2.
+      cbn [snext]. rewrite E. cbn [rbind fst snd]. eexists _, _. split; [reflexivity|].
+      destruct r as [p|]; simpl in *.
+      + destruct Hpost as [A B0]. split; [exact A|]. left. exists t, wl, it'. split; [reflexivity|]. split; [exact B0|].
+        eapply PW_static. apply Hres.
+      + destruct Hpost as [A B0]. split; [exact A|]. left. exists t, wl, it'. split; [reflexivity|]. split; [exact B0|].
+        eapply PW_static. exact Hres.
+    - destruct (a_next_exact offs N Hoffs_ok it S lo HI) as [r [it' [E Hpost]]].
+      cbn [snext]. rewrite E. cbn [rbind fst snd]. eexists _, _. split; [reflexivity|].
+      destruct r as [x|]; simpl in *.
+      + destruct Hpost as [A B0]. split; [exact A|]. right. exists it'. auto.
+      + destruct Hpost as [A B0]. split; [exact A|]. right. left. exists it'. auto.
   Qed.
 
   Lemma leaf_good : good leafP 1.
   Proof.
     constructor.
     - intros [|f] Hf; [lia|]. intros s S lo H. apply leaf_next_inv. exact H.
-    - intros [|f] Hf; [lia|]. intros s S lo n [t [wl [it [-> [HI HS]]]]] Hn.
-      destruct (pit_advance_exact offs N it S lo n HI Hn) as [r [it' [E Hpost]]].
-      assert (HW : PW offs N it S (Some (lo - 1))) by (eapply PInv_PW; eauto; lia).
-      destruct HI as [_ [_ [_ [Hlo _]]]].
-      destruct (pw_adv offs N Hoffs_ok it S (Some (lo - 1)) n HW ltac:(lia)) as [r2 [it2 [E2 Hres]]].
-      { intros q Hq. inversion Hq; subst. lia. }
-      rewrite E in E2. inversion E2; subst r2 it2.
-      cbn [sadv]. rewrite E. cbn [rbind fst snd]. eexists _, _. split; [reflexivity|].
-      destruct r as [p|]; simpl in *.
-      + destruct Hpost as [A B0]. split; [exact A|]. exists t, wl, it'. split; [reflexivity|]. split; [exact B0|].
-        eapply PW_static. apply Hres.
-      + destruct Hpost as [A B0]. split; [exact A|]. left. exists t, wl, it'. split; [reflexivity|]. split; [exact B0|].
-        eapply PW_static. exact Hres.
+    - intros [|f] Hf; [lia|]. intros s S lo n [[t [wl [it [-> [HI HS]]]]]|[it [-> HI]]] Hn.
+      + destruct (pit_advance_exact offs N it S lo n HI Hn) as [r [it' [E Hpost]]].
+        assert (HW : PW offs N it S (Some (lo - 1))) by (eapply PInv_PW; eauto; lia).
+        destruct HI as [_ [_ [_ [Hlo _]]]].
+        destruct (pw_adv offs N Hoffs_ok it S (Some (lo - 1)) n HW ltac:(lia)) as [r2 [it2 [E2 Hres]]].
+        { intros q Hq. inversion Hq; subst. lia. }
+        rewrite E in E2. inversion E2; subst r2 it2.
+        cbn [sadv]. rewrite E. cbn [rbind fst snd]. eexists _, _. split; [reflexivity|].
+        destruct r as [p|]; simpl in *.
+        * destruct Hpost as [A B0]. split; [exact A|]. left. exists t, wl, it'. split; [reflexivity|]. split; [exact B0|].
+          eapply PW_static. apply Hres.
+        * destruct Hpost as [A B0]. split; [exact A|]. left. exists t, wl, it'. split; [reflexivity|]. split; [exact B0|].
+          eapply PW_static. exact Hres.
+      + destruct (a_advance_exact offs N Hoffs_ok it S lo n HI Hn) as [r [it' [E Hpost]]].
+        cbn [sadv]. rewrite E. cbn [rbind fst snd]. eexists _, _. split; [reflexivity|].
+        destruct r as [x|]; simpl in *.
+        * destruct Hpost as [A B0]. split; [exact A|]. right. exists it'. auto.
+        * destruct Hpost as [A B0]. split; [exact A|]. right. left. exists it'. auto.
     - intros [|f] Hf; [lia|]. intros s S [H|[-> HS]]; [apply leaf_next_inv; exact H|].
-      exists None, SNone. split; [reflexivity|]. simpl. split; [intros x _; apply HS|]. right. split; [reflexivity|exact HS].
-    - intros [|f] Hf; [lia|]. intros s S lo n [[t [wl [it [-> [HF HS]]]]]|[-> HS]] Hn.
+      exists None, SNone. split; [reflexivity|]. simpl. split; [intros x _; apply HS|]. right. right. split; [reflexivity|exact HS].
+    - intros [|f] Hf; [lia|]. intros s S lo n [[t [wl [it [-> [HF HS]]]]]|[[it [-> HF]]|[-> HS]]] Hn.
       + destruct (pit_fin_advance offs N it S lo n HF Hn) as [it' [E HF']].
         assert (HW : PW offs N it S None) by (eapply PFin_PW; eauto).
         destruct HF as [_ [_ [_ [Hlo _]]]].
@@ -116,25 +132,42 @@ Section Tree.
         rewrite E in E2. inversion E2; subst r2 it2. simpl in Hres.
         cbn [sadv]. rewrite E. cbn [rbind fst snd]. eexists _, lo. split; [reflexivity|]. split; [exact Hn|].
         left. exists t, wl, it'. split; [reflexivity|]. split; [exact HF'|]. eapply PW_static. exact Hres.
-      + exists SNone, lo. split; [reflexivity|]. split; [exact Hn|]. right. split; [reflexivity|exact HS].
-    - intros [|f] Hf; [lia|]. intros s S p t [[tm [wl [it [-> HW]]]]|[-> ->]] Ht Hp.
+      + destruct (a_fin_advance offs N Hoffs_ok it S lo n HF Hn) as [it' [E HF']].
+        cbn [sadv]. rewrite E. cbn [rbind fst snd]. eexists _, lo. split; [reflexivity|]. split; [exact Hn|].
+        right. left. exists it'. auto.
+      + exists SNone, lo. split; [reflexivity|]. split; [exact Hn|]. right. right. split; [reflexivity|exact HS].
+    - intros [|f] Hf; [lia|]. intros s S p t [[tm [wl [it [-> HW]]]]|[[it [-> HW]]|[-> ->]]] Ht Hp.
       + destruct (pw_adv offs N Hoffs_ok it S p t HW Ht Hp) as [r [it' [E Hres]]].
         cbn [sadv]. rewrite E. cbn [rbind fst snd]. eexists _, _. split; [reflexivity|].
         destruct r as [x|]; simpl in *.
         * destruct Hres as [A [B0 D]]. split; [exact A|]. split; [exact B0|]. left. exists tm, wl, it'. auto.
         * left. exists tm, wl, it'. auto.
-      + exists None, SNone. split; [reflexivity|]. simpl. right. auto.
-    - intros [|f] Hf; [lia|]. intros s S m [[tm [wl [it [-> HW]]]]|[-> Hp]]; [|discriminate].
-      destruct (pw_next offs N Hoffs_ok it S m HW) as [r [it' [E Hres]]].
-      cbn [snext]. rewrite E. cbn [rbind fst snd]. eexists _, _. split; [reflexivity|].
-      destruct r as [x|]; simpl in *.
-      + destruct Hres as [A [B0 D]]. split; [exact A|]. split; [exact B0|]. left. exists tm, wl, it'. auto.
-      + left. exists tm, wl, it'. auto.
-    - intros c S m [t [wl [it [-> [HI HS]]]]] _. left. exists t, wl, it. split; [reflexivity|]. eapply PInv_PW; eauto.
-    - intros c S lo [[t [wl [it [-> [HF HS]]]]]|[-> HS]].
+      + destruct (aw_adv offs N Hoffs_ok it S p t HW Ht) as [r [it' [E Hres]]].
+        cbn [sadv]. rewrite E. cbn [rbind fst snd]. eexists _, _. split; [reflexivity|].
+        destruct r as [x|]; simpl in *.
+        * destruct Hres as [A [B0 D]]. split; [exact A|]. split; [exact B0|]. right. left. exists it'. auto.
+        * right. left. exists it'. auto.
+      + exists None, SNone. split; [reflexivity|]. simpl. right. right. auto.
+    - intros [|f] Hf; [lia|]. intros s S m [[tm [wl [it [-> HW]]]]|[[it [-> HW]]|[-> Hp]]]; [| |discriminate].
+      + destruct (pw_next offs N Hoffs_ok it S m HW) as [r [it' [E Hres]]].
+        cbn [snext]. rewrite E. cbn [rbind fst snd]. eexists _, _. split; [reflexivity|].
+        destruct r as [x|]; simpl in *.
+        * destruct Hres as [A [B0 D]]. split; [exact A|]. split; [exact B0|]. left. exists tm, wl, it'. auto.
+        * left. exists tm, wl, it'. auto.
+      + destruct (aw_next offs N Hoffs_ok it S m HW) as [r [it' [E Hres]]].
+        cbn [snext]. rewrite E. cbn [rbind fst snd]. eexists _, _. split; [reflexivity|].
+        destruct r as [x|]; simpl in *.
+        * destruct Hres as [A [B0 D]]. split; [exact A|]. split; [exact B0|]. right. left. exists it'. auto.
+        * right. left. exists it'. auto.
+    - intros c S m [[t [wl [it [-> [HI HS]]]]]|[it [-> HI]]] _.
+      + left. exists t, wl, it. split; [reflexivity|]. eapply PInv_PW; eauto.
+      + right. left. exists it. split; [reflexivity|]. eapply AInv_AW; eauto.
+    - intros c S lo [[t [wl [it [-> [HF HS]]]]]|[[it [-> HF]]|[-> HS]]].
       + left. exists t, wl, it. split; [reflexivity|]. eapply PFin_PW; eauto.
-      + right. auto.
+      + right. left. exists it. split; [reflexivity|]. eapply AFin_AW; eauto.
+      + right. right. auto.
   Qed.
+
   (* ================= the kid level: conjunction, slice and heap disjunction ================= *)
 
   Section Kids.
